@@ -797,8 +797,9 @@ def main():
     import translate_walk
     import translate_eq
     import translate_indx
+    import translate_strides
     failed = {}
-    ERR = (Unsupported, translate_pyx.Unsupported, translate_walk.Unsupported, translate_eq.Unsupported, translate_indx.Unsupported,
+    ERR = (Unsupported, translate_pyx.Unsupported, translate_walk.Unsupported, translate_eq.Unsupported, translate_indx.Unsupported, translate_strides.Unsupported,
            StopIteration, SyntaxError, KeyError, IndexError, AttributeError)
 
     def piece(name, path, gen, stub_import=None):
@@ -821,6 +822,7 @@ def main():
     piece("eq", "EqGen.lean", lambda: translate_eq.generate(rd("iindexes.py")), "CatiiModel.IIndex")
     piece("indx_save", "IndxSaveGen.lean", lambda: translate_indx.generate(rd("indxio.py")), "CatiiModel.Indx")
     piece("indx_load", "IndxLoadGen.lean", lambda: translate_indx.generate_load(rd("indxio.py")), "CatiiModel.Indx")
+    piece("strides", "StridesGen.lean", lambda: translate_strides.generate(rd("xcubes.py")), "CatiiModel.Prelude")
     return 3 if failed else 0
 
 
